@@ -159,6 +159,27 @@ theorem C02_reductions_preserve_order (ops : List OpEntry) (t : OTree) (rest : L
     ∃ T, popAll ops (t :: rest) = some [T] ∧ WellShaped T ∧ T.yield = yieldBelow ops rest ++ t.yield :=
   popAll_spec ops t rest h
 
+/-- **C02, "the unique tree".**  Two well-shaped trees with the same in-order reading are the same
+    tree: what a table returns is *the* tree that groups the consumed occurrences according to
+    the precedences and associativities of their rows.  (Proof: the stack operations rebuild every
+    well-shaped tree from its reading, `syTree_yield`.) -/
+theorem C02_unique (t₁ t₂ : OTree) (h₁ : WellShaped t₁) (h₂ : WellShaped t₂) (hy : t₁.yield = t₂.yield) : t₁ = t₂ :=
+  wellShaped_unique t₁ t₂ h₁ h₂ hy
+
+/-- so the result of a table is determined by the occurrences it consumed: any well-shaped tree
+    with the reading of the result has the value that was returned -/
+theorem C02_result_is_the_well_shaped_tree (P : Program) (inp : List Nat) (fuel : Nat)
+    (pre : List Expr) (operand : Expr) (mixfix post inf : List Expr) (p : Nat) (v : Val) (pe : Nat)
+    (htag : tableTaggedB pre inf = true)
+    (h : peg P inp (fuel + 1) (.optable pre operand mixfix post inf) p = some (.ok v pe)) :
+    ∃ tree : OTree, v = tree.toVal ∧ WellShaped tree ∧
+      Trace (peg P inp fuel) (ptableExprs pre operand mixfix post inf) p tree.yield pe ∧
+      ∀ other : OTree, WellShaped other → other.yield = tree.yield → other.toVal = v := by
+  obtain ⟨tree, hv, hw, htr⟩ := C02_tree_well_shaped_and_yield P inp fuel pre operand mixfix post inf p v pe htag h
+  refine ⟨tree, hv, hw, htr, ?_⟩
+  intro other ho hy
+  rw [wellShaped_unique other tree ho hw hy, hv]
+
 namespace C02Example
 /-- `"1" between { left: "*"; left: "+" }`: `*` (row 0) binds tighter than `+` (row 1) -/
 def table : Expr :=
